@@ -16,6 +16,9 @@ EXTENDS OpChainsOps, TLC, Json, IOUtils
 
 Data == JsonDeserialize(IOEnv.TRACE_FILE)
 Tr == Data.traces
+(* Two levels (harness/parallel.py): the site / partition / cover events bind the run to the compiler of OpChains.tla (its        *)
+(* invariants on the anchored state at every site); C05 speaks about the returned graph and MPO only.  In pass 2 the harness      *)
+(* removes those events; their diagnostics start with "spec: ".                                                                  *)
 
 VARIABLES tid, l, pc, L, target, nz, hc, co, P, G
 tvars == <<tid, l, pc, L, target, nz, hc, co, P, G>>
@@ -132,11 +135,11 @@ TNextTrace == /\ tid <= Len(Tr) /\ l > Len(Tr[tid]) /\ pc \in {"graph", "mpo"}
 Diagnose ==
     IF Rec.ev = "raise" THEN Rec.exc
     ELSE IF Rec.ev = "site" THEN
-        (IF ~JsonIdsUnique(Rec.g) \/ ~RefsOK(GraphOfJson(Rec.g)) THEN "partial graph malformed"
-         ELSE IF StatePoly(GraphOfJson(Rec.g), LoggedHC, Rec.co) # target THEN "DenPreserved violated: graph + pending half-chains no longer denote the chain sum"
-         ELSE "WidthBound violated: more nodes at a cut than chains")
-    ELSE IF Rec.ev = "partition" THEN "logged repartition is not the repartition of the half-chains"
-    ELSE IF Rec.ev = "cover" THEN "cover is not a minimum vertex cover of the site graph"
+        (IF ~JsonIdsUnique(Rec.g) \/ ~RefsOK(GraphOfJson(Rec.g)) THEN "spec: partial graph malformed"
+         ELSE IF StatePoly(GraphOfJson(Rec.g), LoggedHC, Rec.co) # target THEN "spec: DenPreserved violated: graph + pending half-chains no longer denote the chain sum"
+         ELSE "spec: WidthBound violated: more nodes at a cut than chains")
+    ELSE IF Rec.ev = "partition" THEN "spec: logged repartition is not the repartition of the half-chains"
+    ELSE IF Rec.ev = "cover" THEN "spec: cover is not a minimum vertex cover of the site graph"
     ELSE IF Rec.ev = "graph" THEN
         (IF ~JsonIdsUnique(Rec.g) THEN "duplicate ids"
          ELSE IF ~(JsonListsOK(Rec.g) /\ ConsistentG(GraphOfJson(Rec.g))) THEN "returned graph inconsistent"
